@@ -260,8 +260,31 @@ Proof.
 Qed.
 End NewTrusting.
 
+
+(** ---- the trust level fits int64 for every validated client, and no operation changes it ---- *)
+Definition tl_fits (c : Client) : Prop := (Z.of_N (c_tl_num c) < two63Z)%Z /\ (Z.of_N (c_tl_den c) < two63Z)%Z.
+
+Lemma validate_client_tl_fits c : validate_client c = Some true -> tl_fits c.
+Proof.
+  unfold validate_client. intros H.
+  destruct (is_blank (c_chain c)); [discriminate|].
+  destruct (50 <? N.of_nat (length (c_chain c)))%N; [discriminate|].
+  destruct (negb (valid_trust_level (c_tl_num c) (c_tl_den c))); [discriminate|].
+  destruct (trust_level_fits (c_tl_num c) (c_tl_den c)) eqn:F; simpl in H; [|discriminate].
+  unfold trust_level_fits in F. apply andb_true_iff in F. destruct F as [F1 F2].
+  apply Z.leb_le in F1, F2. unfold tl_fits, two63Z, max_int64 in *. lia.
+Qed.
+
 Lemma option_eq_dec_N (o : option N) (k : N) : {o = Some k} + {o <> Some k}.
 Proof. destruct o as [n|]; [destruct (N.eq_dec n k); [left; congruence | right; congruence] | right; discriminate]. Qed.
+
+Lemma is_matching_iff a b :
+  is_matching a b = true <->
+  c_tl_num a = c_tl_num b /\ c_tl_den a = c_tl_den b /\ c_unbonding a = c_unbonding b /\
+  c_drift a = c_drift b /\ c_specs a = c_specs b /\ c_upath a = c_upath b.
+Proof.
+  unfold is_matching. rewrite !andb_true_iff, !N.eqb_eq, !Z.eqb_eq, bytes_eqb_eq, list_bytes_eqb_eq. tauto.
+Qed.
 
 Section WithOracles.
   Variable vmem : bytes -> bytes -> bytes -> list bytes -> bytes -> bool.
@@ -454,13 +477,6 @@ Section WithOracles.
   Qed.
 
   (** ---- C25: recovery ---- *)
-  Lemma is_matching_iff a b :
-    is_matching a b = true <->
-    c_tl_num a = c_tl_num b /\ c_tl_den a = c_tl_den b /\ c_unbonding a = c_unbonding b /\
-    c_drift a = c_drift b /\ c_specs a = c_specs b /\ c_upath a = c_upath b.
-  Proof.
-    unfold is_matching. rewrite !andb_true_iff, !N.eqb_eq, !Z.eqb_eq, bytes_eqb_eq, list_bytes_eqb_eq. tauto.
-  Qed.
 
   (** what the recovered subject looks like *)
   Definition recovered (c s : Client) (e : ConsState) : Client :=
@@ -602,6 +618,62 @@ Section WithOracles.
     - intros h NEh. simpl. apply hlookup_hinsert_other; auto.
     - intros cid' NEc. apply get_set_other; auto.
   Qed.
+
+
+  (** every client keeps a trust level that fits int64 over any history (only creation, which runs
+      ClientState.Validate, chooses a trust level; upgrade re-validates and keeps it; recovery requires equality) *)
+  Definition all_tl_fit (w : World) : Prop := forall cid c, get_client w cid = Some (Tm c) -> tl_fits c.
+
+  Lemma set_client_tl_fit w cid c : all_tl_fit w -> tl_fits c -> all_tl_fit (set_client w cid c).
+  Proof.
+    intros A F cid' c' G. destruct (N.eq_dec cid' cid) as [->|NE].
+    - rewrite get_set_same in G. inversion G; subst; auto.
+    - rewrite get_set_other in G by auto. eapply A; eauto.
+  Qed.
+
+  Lemma step_tl_fit w o : all_tl_fit w -> all_tl_fit (fst (step w o)).
+  Proof.
+    intros A. destruct o; simpl; auto.
+    - (* update *)
+      unfold update_client. destruct (get_client w cid) as [[c|ty]|] eqn:G; simpl; auto.
+      destruct (status (w_now w) c); simpl; auto.
+      destruct (negb (msg_verified m)); simpl; auto.
+      assert (F := A _ _ G).
+      destruct (check_for_misbehaviour c m); simpl.
+      + apply set_client_tl_fit; auto.
+      + destruct m; simpl; auto. apply set_client_tl_fit; auto.
+        unfold update_state, prune_oldest, tl_fits in *.
+        destruct (hmin (c_cons c)) as [[hh e]|]; [destruct (is_expired c (cs_ts e) (w_now w))|];
+          simpl; repeat (match goal with |- context [match ?x with _ => _ end] => destruct x end; simpl); auto.
+    - (* recover *)
+      unfold recover_client. destruct (get_client w subj) as [[c|ty]|] eqn:G; simpl; auto.
+      + destruct (status_eqb (status (w_now w) c) Active); simpl; auto.
+        destruct (get_client w subst) as [[s|ty]|]; simpl; auto.
+        destruct (negb (status_eqb (status (w_now w) s) Active)); simpl; auto.
+        destruct (h_gte (latest_of w subj) (c_latest s)); simpl; auto.
+        destruct (negb (is_matching c s)); simpl; auto.
+        destruct (hlookup (c_latest s) (c_cons s)) as [e|]; simpl; auto.
+        destruct (cs_pheight e); simpl; auto. destruct (cs_ptime e); simpl; auto.
+        apply set_client_tl_fit; auto. assert (F := A _ _ G). unfold tl_fits in *.
+        destruct (status_eqb (status (w_now w) c) Frozen); simpl; auto.
+      + destruct (get_client w subst) as [[s|ty]|]; simpl; auto.
+        destruct (negb (status_eqb (status (w_now w) s) Active)); simpl; auto.
+        destruct (h_gte (latest_of w subj) (c_latest s)); simpl; auto.
+    - (* upgrade *)
+      unfold World.upgrade_client. destruct (get_client w cid) as [[c|ty]|] eqn:G; simpl; auto.
+      destruct (status (w_now w) c); simpl; auto.
+      destruct (negb (h_gt (c_latest (u_client u)) (c_latest c))); simpl; auto.
+      destruct (c_upath c) eqn:Eup; simpl; auto.
+      destruct (hlookup (c_latest c) (c_cons c)) as [e|]; simpl; auto.
+      destruct (negb (vmem _ _ _ _ _)); simpl; auto.
+      destruct (negb (vmem _ _ _ _ _)); simpl; auto.
+      destruct (if (c_unbonding (u_client u) <? c_unbonding c)%Z then _ else _) as [t|]; simpl; auto.
+      destruct (validate_client _) as [[|]|]; simpl; auto.
+      apply set_client_tl_fit; auto. exact (A _ _ G).
+  Qed.
+
+  Theorem run_tl_fit ops : forall w, all_tl_fit w -> all_tl_fit (run w ops).
+  Proof. induction ops as [|o ops IH]; intros w A; simpl; auto. apply IH. apply step_tl_fit; auto. Qed.
 
   (** no operation changes any client other than its target — for whole histories of operations on one target *)
   Theorem run_frame ops : forall w cid,
